@@ -3,7 +3,9 @@
 Proof part (functions under contract): carbon.util:TaggedSeries.format (a function of the tag
 *map*: insertion order cannot matter because the rendered tag list goes through sorted()),
 TaggedSeries.path, TaggedSeries.validateTagAndValue (the rejection rules, pinned),
-TaggedSeries.parse (syntax dispatch), carbon.cache:CacheFeedingProcessor.process and
+TaggedSeries.parse (syntax dispatch), TaggedSeries.parse_carbon (tag map = last segment per tag,
+`name` always the sanitised metric name, rejection iff some part is malformed; loop contract with a
+ghost "last segment setting this tag" map), carbon.cache:CacheFeedingProcessor.process and
 carbon.client:RelayProcessor.process (a name the parser rejects is stored / relayed exactly as
 received; an accepted one as parse(name).path).
 Bounded part: idempotence, order independence at the parse level and agreement of the two
@@ -163,6 +165,127 @@ def u_validate(ctx, index):
   ctx.check('C18/validateTagAndValue/rejects_iff_a_tag_rule_is_violated', z3.BoolVal(raised is not None) == bad)
 
 
+SEG_TAG = z3.Function('text_before_first_equals', Atom, Atom)
+SEG_VAL = z3.Function('text_after_first_equals', Atom, Atom)
+SEG_HAS_EQ = z3.Function('contains_equals', Atom, z3.BoolSort())
+TAG_OK = z3.Function('tag_and_value_are_valid', Atom, Atom, z3.BoolSort())     # validateTagAndValue's contract
+LSTRIP_TILDE = z3.Function('lstrip_tilde', Atom, Atom)
+
+
+def u_parse_carbon(ctx, index):
+  """parse_carbon(path): with path.split(';') = [metric, seg_1 .. seg_n] (arbitrary strings),
+  seg.split('=', 1) = [tag, value] when the segment contains '=':
+    raises  iff  the metric is empty, or some segment has no '=' / an empty tag / violates a tag rule
+                 (validateTagAndValue's contract), or the metric is nothing but '~';
+    otherwise the tag map is { tag_j -> value_j } with the LAST segment of a tag winning, except that
+    'name' is always the metric name with leading '~' stripped -- whatever the segments say, so the
+    result does not depend on where a `name` tag stands (what both syntaxes must agree on).
+  Ghost: last[t] = index of the last segment so far that sets tag t (or -1)."""
+  from pyvc.interp import LoopSpec, Spec
+  from pyvc.models import SymSeq, TInt
+  ip = make_interp(ctx, index)
+  ip.label_prefix = 'C18/'
+  I = z3.IntSort()
+  Q = TS + '.parse_carbon'
+  path = ctx.fresh(Atom, 'path')
+  segs = SymSeq(TAtom, ctx.fresh(z3.SeqSort(Atom), 'segments'), 'segments')
+  ctx.assume(segs.length() >= 1)
+  name_atom = ip.atom('name')
+  j_, t_ = z3.Int('j?'), z3.Const('t?', Atom)
+  st = {}
+
+  def split(ip2, o, sep=None, maxsplit=-1):
+    if sep == ';' and maxsplit == -1:
+      return segs
+    if sep == '=' and maxsplit == 1:
+      o = TAtom.enc(ip2, o)
+      if ip2.ctx.branch(SEG_HAS_EQ(o), "'=' in segment"):
+        return PyList([SEG_TAG(o), SEG_VAL(o)])
+      return PyList([o])
+    raise EngineError("split(%r, %r)" % (sep, maxsplit))
+  ip.ext[('method', 'split')] = split
+  ip.ext[('truth', 'Atom')] = lambda ip2, v: z3.Not(LEN0(v))
+  ip.ext[('method', 'lstrip')] = lambda ip2, o, chars: LSTRIP_TILDE(TAtom.enc(ip2, o)) if chars == '~' else (_ for _ in ()).throw(EngineError('lstrip'))
+  ip.ext[('len', 'Atom')] = lambda ip2, v: z3.If(LEN0(v), 0, 1)          # only compared with 0
+  tags = SymMap.empty(ctx_ip(ctx), TAtom, TAtom, 'tags')
+  ip.ext[('new_dict', Q)] = lambda ip2: tags
+
+  def validate(ip2, args, kw):
+    tag, value = TAtom.enc(ip2, args[-2]), TAtom.enc(ip2, args[-1])
+    if not ip2.ctx.branch(TAG_OK(tag, value), 'tag rules hold'):
+      raise PyRaise(ExcVal('Exception', ('invalid tag',)))
+    return None
+  ip.specs[TS + '.validateTagAndValue'] = Spec(TS + '.validateTagAndValue', validate)
+
+  def seg(j):
+    return segs.term[j]
+
+  def sets_tag(j, t):
+    return z3.And(SEG_HAS_EQ(seg(j)), SEG_TAG(seg(j)) == t)
+
+  def well_formed(j):
+    return z3.And(SEG_HAS_EQ(seg(j)), z3.Not(LEN0(SEG_TAG(seg(j)))), TAG_OK(SEG_TAG(seg(j)), SEG_VAL(seg(j))))
+
+  def pre(fr):
+    fr.ghost['last'] = z3.K(Atom, z3.IntVal(-1))
+
+  def inv(fr):
+    k = fr.loop_k[0] + 1            # the loop runs over segments[1:]: k is the index into `segments`
+    last = fr.ghost['last']
+    return [
+      ('segments_so_far_are_well_formed', z3.ForAll([j_], z3.Implies(z3.And(1 <= j_, j_ < k), well_formed(j_)))),
+      ('tag_present_iff_some_segment_sets_it', z3.ForAll([t_], z3.Select(tags.keys, t_) == (z3.Select(last, t_) >= 1))),
+      ('last_is_the_last_segment_setting_the_tag', z3.ForAll([t_], z3.Implies(
+        z3.Select(last, t_) >= 1,
+        z3.And(z3.Select(last, t_) < k, sets_tag(z3.Select(last, t_), t_),
+               z3.Select(tags.vals, t_) == SEG_VAL(seg(z3.Select(last, t_))),
+               z3.ForAll([j_], z3.Implies(z3.And(z3.Select(last, t_) < j_, j_ < k), z3.Not(sets_tag(j_, t_)))))))),
+      ('every_segment_s_tag_is_present', z3.ForAll([j_], z3.Implies(z3.And(1 <= j_, j_ < k), z3.Select(last, SEG_TAG(seg(j_))) >= j_))),
+    ]
+
+  def havoc(fr):
+    tags.havoc(ip, 'tags')
+    fr.ghost['last'] = ctx.fresh(z3.ArraySort(Atom, I), 'last')
+    st['last'] = fr.ghost['last']
+    st['k'] = fr.loop_k[0] + 1
+
+  def step(fr):
+    kdone = fr.loop_k[0]            # index into `segments` of the segment just processed
+    fr.ghost['last'] = z3.Store(fr.ghost['last'], SEG_TAG(seg(kdone)), kdone)
+    ctx.cover('parse_carbon/segment_done')
+  ip.loops[(Q, 0)] = LoopSpec('for segment in segments[1:]', inv, havoc, ghost_pre=pre, ghost_step=step, locals_modified=[])
+  raised = None
+  try:
+    r = ip.call(ip.getattr(ip.env(U).lookup('TaggedSeries'), 'parse_carbon'), [path])
+  except PyRaise as e:
+    raised = e.exc
+  index.mark_used(index.func(Q))
+  ctx.cover('parse_carbon/ends')
+  n = segs.length()
+  metric = seg(0)
+  all_ok = z3.And(z3.Not(LEN0(metric)), z3.ForAll([j_], z3.Implies(z3.And(1 <= j_, j_ < n), well_formed(j_))),
+                  z3.Not(LEN0(LSTRIP_TILDE(metric))))
+  ctx.check('C18/parse_carbon/rejects_iff_some_part_is_malformed', z3.BoolVal(raised is not None) == z3.Not(all_ok))
+  if raised is not None:
+    return
+  ctx.cover('parse_carbon/returns')
+  ok = isinstance(r, PyObj) and r.fields.get('tags') is tags
+  ctx.check('C18/parse_carbon/returns_series_with_the_tag_map', z3.BoolVal(bool(ok)))
+  ctx.check('C18/parse_carbon/metric_is_the_first_segment', r.fields.get('metric') == metric if ok and z3.is_expr(r.fields.get('metric')) else z3.BoolVal(False))
+  # `name` is the sanitized metric name whatever the segments say
+  ctx.check('C18/parse_carbon/name_is_the_metric_name', z3.And(z3.Select(tags.keys, name_atom),
+                                                              z3.Select(tags.vals, name_atom) == LSTRIP_TILDE(metric)))
+  last = st.get('last')
+  if last is not None:
+    ctx.check('C18/parse_carbon/other_tags_from_their_last_segment', z3.ForAll([t_], z3.Implies(
+      t_ != name_atom,
+      z3.And(z3.Select(tags.keys, t_) == z3.Exists([j_], z3.And(1 <= j_, j_ < n, sets_tag(j_, t_))),
+             z3.Implies(z3.Select(tags.keys, t_),
+                        z3.Exists([j_], z3.And(1 <= j_, j_ < n, sets_tag(j_, t_), z3.Select(tags.vals, t_) == SEG_VAL(seg(j_)),
+                                               z3.ForAll([z3.Int('i?')], z3.Implies(z3.And(j_ < z3.Int('i?'), z3.Int('i?') < n),
+                                                                                    z3.Not(sets_tag(z3.Int('i?'), t_)))))))))))
+
+
 class FirstChar(Model):
   def __init__(self, s):
     self.s = s
@@ -240,6 +363,8 @@ def build():
   units = [
     Unit('util.TaggedSeries.format', u_format, [TS + '.format'], expect_covers=['format/returns']),
     Unit('util.TaggedSeries.path', u_path, [TS + '.path', TS + '.format'], expect_covers=['path/returns']),
+    Unit('util.TaggedSeries.parse_carbon', u_parse_carbon, [TS + '.parse_carbon', TS + '.sanitize_name_as_tag_value', TS + '.__init__'],
+         expect_covers=['parse_carbon/ends', 'parse_carbon/returns', 'parse_carbon/segment_done']),
     Unit('util.TaggedSeries.validateTagAndValue', u_validate, [TS + '.validateTagAndValue'], expect_covers=['validate/ends']),
     u_process('cache'), u_process('relay'),
   ]
